@@ -79,9 +79,6 @@ impl Kind {
         matches!(self, Kind::Multi | Kind::Zc)
     }
 
-    pub fn is_stream(self) -> bool {
-        matches!(self, Kind::Multi | Kind::Zc)
-    }
 }
 
 #[derive(Clone, Copy, PartialEq, Eq, Debug, Hash, PartialOrd, Ord)]
